@@ -168,7 +168,8 @@ fn contains_body(q: u32) {
     assert!(a1 == want, "binary-search contains_prefix disagrees with the bit-string meaning");
     assert!(a2 == want, "linear contains_prefix disagrees with the bit-string meaning");
     kani::cover!(want);
-    kani::cover!(!want);
+    // the empty prefix is contained in every non-empty set: no negative case exists for q = 0
+    kani::cover!(!want || q == 0);
 }
 macro_rules! cont {
     ($name:ident, $q:expr) => {
